@@ -1584,7 +1584,7 @@ package stun
 // the reader stops for exactly two reasons: the stop channel, or the agent reporting that it is closed. The only error
 // it ever classifies is therefore the one returned by Process, against ErrAgentClosed (a read error is not a reason to stop)
 //@ func (*Client).readUntilClosed->errors.Is(err, target)
-//@   requires target == ErrAgentClosed && err == pErr
+//@   requires target == ErrAgentClosed
 //@   pure
 //@   ensures result <==> err_is(errtag(err), errval(err), errtag(target), errval(target))
 //@ func (*Client).readUntilClosed(c)
